@@ -41,7 +41,10 @@ GENERIC = (
     "reversed slices; balanced bow-tie polygons (zero signed area); large subpixel counts; scaled dimensionless units (percent); rotation about an "
     "operand's own centre; sky compounds of operands in different frames; `global` defaults parsed differently from inline keys; the `header=` "
     "argument; angles below 1e-8 rad about distant pivots; text regions' visual rotation; parent vs derived class equality; augmented "
-    "assignment (`*=`) on Quantity attributes; keyword values None; aspect ratios above 1e13 and sizes near 1e-170 / 1e160.")
+    "assignment (`*=`) on Quantity attributes; keyword values None; aspect ratios above 1e13 and sizes near 1e-170 / 1e160; compounds with a point/line/text operand; "
+    "integer/bool `dtype=` of `to_image`; complex images; oblique CAR (CRVAL2 != 0); converted regions sharing list-valued entries; centres with a "
+    "distance; centres exactly at CRVAL; exponent-notation and leading-dot numbers; labels containing ', key=value'; columns padded to a common "
+    "width; empty region lists; rotation by exactly 0; `transform=` keyword; Latitude/Longitude angle objects.")
 
 LEFT = (
     "Think about what is LEFT: e.g. the order in which two independent features are applied; behaviour at the exact edge of a documented domain "
